@@ -12,6 +12,7 @@ import GocoinV.Proofs.C04Checks
 import GocoinV.Proofs.C04Final
 import GocoinV.Proofs.C04Cost
 import GocoinV.Proofs.C04Wf
+import GocoinV.Proofs.C04Equiv
 namespace GocoinV.Props.C04
 open GocoinV GocoinV.Connect GocoinV.Proofs.C04
 open GocoinV.Spec.Connect (connectBlock connectTxs addOuts absList absGet isOk failsWith subsidy seqLockOk Coin)
@@ -26,7 +27,12 @@ theorem subsidy_halving (h : Nat) :
 
 /-- When the block is refused (any error of CheckTransactions / commitTxs), the observable chain state — unspent
     set, tip and block index — is exactly what it was before `AcceptBlock` (the node linked by AcceptHeader is
-    unlinked again). `b.hash ∉ c.index` is what PreCheckBlock's "already in" test guarantees. -/
+    unlinked again). `b.hash ∉ c.index` is what PreCheckBlock's "already in" test guarantees.
+    `acceptBlock Cfg.current` is the function the oracle executes for every candidate block (Oracle/C04.lean, op `block`;
+    its state IS a `Chain`), and the harness compares the model's tip and index size with the real chain's after every
+    block (accepted or refused) and the model's set with the real set after accepted ones; it never submits a hash that
+    is already in the real index, so `hnew` holds for every request. Independently of the model the harness checks the
+    clause on the real code: tip, index size and full UTXO dump before = after for every refused block. -/
 theorem refuse_unchanged (cfg : Cfg) (c : Chain) (b : Block) (e : Err) (c' : Chain)
     (hnew : b.hash ∉ c.index) (h : acceptBlock cfg c b = (c', .error e)) :
     c'.db = c.db ∧ c'.tip = c.tip ∧ c'.index = c.index := by
@@ -351,5 +357,63 @@ theorem connect_sound_counterexample_opreturn :
     isOk (connect Cfg.current W.db0 W.blockSigops) = true
     ∧ failsWith (connectBlock (absList W.mtp0 W.db0) W.blockSigops) .sigops = true := by
   refine ⟨by decide +kernel, by decide +kernel⟩
+
+/-! ### the three Lean models of CheckTransaction / IsFinal / commitTxs say the same thing
+
+  Property C05 (Model/BlockCheck.lean) and property C06 (Model/UtxoOps.lean) carry their own models of parts of what
+  `Model/Connect.lean` models here. The lemmas of Proofs/C04Equiv.lean relate them. -/
+
+/-- C05's `checkTransaction`, `isFinal` and `checkOneTx` (Model/BlockCheck.lean, whose constants MAX_MONEY, 4,000,000, 2, 100,
+    500,000,000 are regenerated from /repo's source by gen_c05 on every run) ARE this property's `checkTransaction
+    Cfg.current` / `isFinal` on the projected transaction `toBC tx`: same verdict, same error, for every transaction. -/
+theorem c05_tx_checks_are_these (tx : Tx) (height time : Nat) :
+    (BlockCheck.checkTransaction (toBC tx)).map ofBCErr = errOf (checkTransaction Cfg.current tx)
+    ∧ BlockCheck.isFinal (toBC tx).lockTime ((toBC tx).ins.map (·.seq)) height time = isFinal tx height time
+    ∧ (BlockCheck.checkOneTx (toBC tx) height time).map ofBCErr
+        = errOf (do checkTransaction Cfg.current tx; if !isFinal tx height time then throw Err.nonFinal : Except Err Unit) :=
+  ⟨c05_checkTransaction_eq tx, c05_isFinal_eq tx height time, c05_checkOneTx_eq tx height time⟩
+
+example : (BlockCheck.checkTransaction (toBC (W.cbTx 50))).isNone = true ∧ isOk (checkTransaction Cfg.current (W.cbTx 50)) = true := by decide
+
+/-- C06's reduced `commitTxs` (Model/UtxoOps.lean: whole txid as key, exact sums, no sigop cost, no MoneyRange tests, no
+    coinbase-script-length test, with undo data) is the PROJECTION of this property's: whenever `connect Cfg.current`
+    accepts a block on a well-formed record map whose records are not above the block, C06's `commitTxs` accepts the
+    projected block on the projected map (with `trusted = false` and `reward = GetBlockReward`) and the delete list and
+    add list it returns are the projections of `DeledTxs` and `AddList`. `enc` = any injective coding of txids as
+    numbers (`encBytes` is one), `encS` = any coding of scripts. -/
+theorem c06_commitTxs_is_projection (enc : Bytes → Nat) (encS : Bytes → String) (henc : ∀ a b, enc a = enc b → a = b)
+    (db : DB) (hwf : WF db) (b : Block) (hheights : ∀ kr ∈ db, kr.2.height ≤ b.height) (hb : b.height < 2 ^ 32)
+    (db' : DB) (so : Nat) (h : connect Cfg.current db b = .ok (db', so)) :
+    ∃ s ch, commitTxs Cfg.current db b = .ok s ∧ db' = applyChanges Cfg.current db b s
+      ∧ UtxoOps.commitTxs (pDB enc encS db) b.height (getBlockReward b.height) false (b.txs.map (pTx enc encS)) = .ok ch
+      ∧ ch.deled = pDeled enc s.deled ∧ ch.addList = (addList b s).map (pRec enc encS) :=
+  c06_commitTxs_projection henc db hwf b hheights hb db' so h
+
+example : (∀ a b, encBytes a = encBytes b → a = b) ∧ WF W.db0 ∧ (∀ kr ∈ W.db0, kr.2.height ≤ W.blockSeqLock.height)
+    ∧ W.blockSeqLock.height < 2 ^ 32 ∧ isOk (connect Cfg.current W.db0 W.blockSeqLock) = true :=
+  ⟨encBytes_inj, ⟨by decide, by decide⟩, by decide, by decide, by decide⟩
+
+/-- One input, both directions: C06's `procInput` on the projected map and locals fails with the corresponding error kind
+    exactly when this property's coin look-up `resolve` fails (tx VOut too big / double spend / unknown input / vout too big
+    / vout already spent / own coinbase / immature), and otherwise yields the same value and corresponding locals. -/
+theorem c06_input_lookup_is_projection (enc : Bytes → Nat) (encS : Bytes → String) (henc : ∀ a b, enc a = enc b → a = b)
+    (db : DB) (hwf : WF db) (b : Block) (hh : ∀ k r, aGet db k = some r → r.height ≤ b.height) (hb : b.height < 2 ^ 32)
+    (inp : TxIn) (s : St) (c : UtxoOps.CState) (hR : RelC06 enc encS s c) :
+    match resolve Cfg.current db b inp s with
+    | .error e => UtxoOps.procInput (pDB enc encS db) b.height c (pIn enc inp) = .error (pErr e)
+    | .ok (s1, v, _) => ∃ c1, UtxoOps.procInput (pDB enc encS db) b.height c (pIn enc inp) = .ok (c1, v) ∧ RelC06 enc encS s1 c1 :=
+  c06_procInput_projection henc db hwf b hh hb inp s c hR
+
+example : RelC06 encBytes (fun _ => "") (St.init W.blockOk) {} := ⟨rfl, rfl⟩
+
+/-- The coinbase-script-length test inside commitTxs (`Err.cbScriptLen`) cannot fail once CheckTransaction has passed the
+    coinbase: on the CheckBlock + AcceptBlock path it is dead code (the correspondence run reaches `cbLength` with a
+    101-byte coinbase script, never `cbScriptLen`). -/
+theorem coinbase_script_length_checked_before (db : DB) (b : Block) (cb : Tx) (s : St)
+    (hc : checkTransaction Cfg.current cb = .ok ()) (hcb : cb.isCoinBase = true) :
+    ∃ s1, txInputs Cfg.current db b true cb s = .ok (s1, 0) :=
+  cbScriptLen_subsumed db b cb s hc hcb
+
+example : isOk (checkTransaction Cfg.current (W.cbTx 50)) = true ∧ (W.cbTx 50).isCoinBase = true := by decide
 
 end GocoinV.Props.C04
